@@ -75,7 +75,40 @@ fn coq_comp(c: &Vec<usize>) -> String {
     coq_list(c, |v| v.to_string())
 }
 
-fn add_case(st: &mut Stream, n: usize, es: Vec<E>, family: &str, via_files: bool, tmp: &std::path::Path) {
+/// Cases are first collected as specs and then dealt round-robin over the shards (the library
+/// cuts the case list into contiguous chunks, and the expensive cases - large graphs - are all
+/// generated last): chunk c receives the specs whose index is congruent to c modulo the shard count.
+struct Spec {
+    n: usize,
+    es: Vec<E>,
+    family: String,
+    via_files: bool,
+}
+struct Gen {
+    specs: Vec<Spec>,
+}
+fn add_case(g: &mut Gen, n: usize, es: Vec<E>, family: &str, via_files: bool, _tmp: &std::path::Path) {
+    g.specs.push(Spec { n, es, family: family.to_string(), via_files });
+}
+fn deal(g: Gen, st: &mut Stream, shards: usize, tmp: &std::path::Path) {
+    let total = g.specs.len();
+    let k = shards.max(1);
+    let mut slots: Vec<Option<Spec>> = g.specs.into_iter().map(Some).collect();
+    let mut order: Vec<usize> = Vec::with_capacity(total);
+    for c in 0..k {
+        let mut i = c;
+        while i < total {
+            order.push(i);
+            i += k;
+        }
+    }
+    for i in order {
+        let sp = slots[i].take().unwrap();
+        emit_case(st, sp.n, sp.es, &sp.family, sp.via_files, tmp);
+    }
+}
+
+fn emit_case(st: &mut Stream, n: usize, es: Vec<E>, family: &str, via_files: bool, tmp: &std::path::Path) {
     let id = st.next_id();
     let g_coq = format!("(mkG {} {})", n, coq_list(&es, |(s, d)| format!("({},{})", s, d)));
     let wf = es.iter().all(|(s, d)| *s < n && *d < n);
@@ -162,7 +195,7 @@ fn bucket(x: usize) -> String {
 }
 
 /// all digraphs on n vertices without parallel edges (self loops allowed): 2^(n*n) graphs
-fn exhaustive(st: &mut Stream, n: usize, tmp: &std::path::Path) {
+fn exhaustive(st: &mut Gen, n: usize, tmp: &std::path::Path) {
     let pairs: Vec<E> = (0..n).flat_map(|s| (0..n).map(move |d| (s, d))).collect();
     for mask in 0u64..(1u64 << pairs.len()) {
         let es: Vec<E> = pairs.iter().enumerate().filter(|(i, _)| mask >> i & 1 == 1).map(|(_, e)| *e).collect();
@@ -335,10 +368,13 @@ fn main() {
         let n = case["n"].as_u64().unwrap() as usize;
         let es: Vec<E> = serde_json::from_value(case["edges"].clone()).unwrap();
         let via = case["via_files"].as_bool().unwrap_or(false);
-        add_case(&mut st, n, es, "replay", via, &tmp);
+        emit_case(&mut st, n, es, "replay", via, &tmp);
         st.finish();
         return;
     }
+    let shards = a.shards;
+    let mut real_st = st;
+    let mut st = Gen { specs: vec![] };
     let thorough = a.extra.iter().any(|x| x == "--exh4");
     // largest deterministic chain / cycle; random graphs stay smaller (the Coq-side checker is cubic)
     let maxn: usize = if thorough { 200 } else { 40 };
@@ -402,14 +438,15 @@ fn main() {
     // ---- random ----
     let mut rng = Rng::new(a.seed);
     // --n = number of random cases (the deterministic families above are always complete)
-    let target = st.next_id() + a.n;
+    let target = st.specs.len() + a.n;
     let mut k = 0usize;
-    while st.next_id() < target {
+    while st.specs.len() < target {
         let mut r = rng.fork();
         let (n, es, fam) = random_graph(&mut r, maxn_rand);
         k += 1;
         // every 25th random case goes through the CSV loader
         add_case(&mut st, n, es, fam, k % 25 == 0, &tmp);
     }
-    st.finish();
+    deal(st, &mut real_st, shards, &tmp);
+    real_st.finish();
 }
